@@ -187,12 +187,7 @@ func (i UInt32) ExponentiateUInt32(other UInt32) UInt32 {
 	if other <= 0 {
 		return 1
 	}
-	result := i
-	var j UInt32
-	for j = 2; j <= other; j++ {
-		result *= i
-	}
-	return result
+	return StrictIntExponentiate(i, other)
 }
 
 func (i UInt32) Subtract(other Value) (UInt32, Value) {
